@@ -139,21 +139,31 @@ Example C10_tar_dead_satisfiable :
 Proof. reflexivity. Qed.
 Print Assumptions C10_tar_dead_satisfiable.
 
-(* detection: with a well-formed magic table every file that starts with an entry's magic gets that entry's type,
-   whatever follows and wherever the entry stands in the table *)
+(* detection (repaired): a plain TAR — ustar at offset 257 and a first header block tarfile accepts — is recognised
+   whatever its first member is called; tar_block_ok is the tarfile oracle *)
+Theorem C10_detect_tar :
+  forall (T : tables) (tar_block_ok : bytes -> bool) (file : bytes),
+    ustar_at T file = true -> tar_block_ok (takeN 512 file) = true -> detect T tar_block_ok file = Some (s "tar").
+Proof. intros. apply detect_tar; assumption. Qed.
+Print Assumptions C10_detect_tar.
+
+(* every file that starts with an entry's magic and is not such a TAR gets that entry's type, whatever follows and
+   wherever the entry stands in a well-formed table *)
 Theorem C10_detect_magic :
-  forall (T : tables) (m : bytes) (ty : str) (len : N) (rest : bytes),
-    wf_magic (magic T) = true -> In (m, ty, len) (magic T) -> detect T (m ++ rest) = Some ty.
+  forall (T : tables) (tar_block_ok : bytes -> bool) (m : bytes) (ty : str) (len : N) (rest : bytes),
+    wf_magic (magic T) = true -> In (m, ty, len) (magic T) ->
+    ustar_at T (m ++ rest) && tar_block_ok (takeN 512 (m ++ rest)) = false ->
+    detect T tar_block_ok (m ++ rest) = Some ty.
 Proof. intros. eapply detect_hit; eassumption. Qed.
 Print Assumptions C10_detect_magic.
 
-(* plain TAR — only the partial statement holds (open finding tar-magic-shadowed-by-first-member-name):
-   ustar at offset 257 is recognised provided no magic matches the first bytes (= the first member's name) *)
-Theorem C10_detect_tar_partial :
-  forall (T : tables) (file : bytes),
-    detect_magic (magic T) (takeN 512 file) = None -> ustar_at T file = true -> detect T file = Some (s "tar").
-Proof. intros. apply detect_tar; assumption. Qed.
-Print Assumptions C10_detect_tar_partial.
+(* last resort kept from the original code: bare ustar magic when no signature matches *)
+Theorem C10_detect_tar_fallback :
+  forall (T : tables) (tar_block_ok : bytes -> bool) (file : bytes),
+    detect_magic (magic T) (takeN 512 file) = None -> ustar_at T file = true ->
+    detect T tar_block_ok file = Some (s "tar").
+Proof. intros. apply detect_tar_fallback; assumption. Qed.
+Print Assumptions C10_detect_tar_fallback.
 
 (* the handlers and tar modes *)
 Theorem C10_routes :
@@ -161,3 +171,23 @@ Theorem C10_routes :
   /\ route (s "tar.gz") = HTar (s "r:gz") /\ route (s "tar.bz2") = HTar (s "r:bz2") /\ route (s "tar.xz") = HTar (s "r:xz").
 Proof. repeat split; vm_compute; reflexivity. Qed.
 Print Assumptions C10_routes.
+
+(* ---------------------------------------------------------------- byte-level 7z header parser (C10/Parse.v) *)
+From S2T Require Import C10.Parse C10.Term.
+
+(* SevenZipReader(file) — signature and CRC checks, end-header location, encoded-header decompression, and every
+   loop of _parse_main_header / _parse_pack_info / _parse_unpack_info / _parse_folder / _parse_substreams_info /
+   _parse_files_info (both `while True` loops included) — terminates on EVERY byte string, for every lzma and crc32
+   oracle: with fuel = length + 1 the model never answers OutOfFuel. *)
+Theorem C10_7z_parse_terminates :
+  forall (T : tables) lzma_alone lzma2_raw (crc32 : bytes -> N) (file : bytes),
+    parse_7z T lzma_alone lzma2_raw crc32 file <> PFuel.
+Proof. intros. apply parse_7z_terminates. Qed.
+Print Assumptions C10_7z_parse_terminates.
+
+(* the same for the end-header parser alone, for any fuel above the header length *)
+Theorem C10_7z_end_header_terminates :
+  forall (T : tables) lzma_alone lzma2_raw (fuel : nat) (body hdr : bytes),
+    (List.length hdr < fuel)%nat -> parse_end_header T lzma_alone lzma2_raw fuel body hdr <> PFuel.
+Proof. intros. apply parse_end_header_terminates. assumption. Qed.
+Print Assumptions C10_7z_end_header_terminates.
